@@ -218,9 +218,10 @@ PROPS["C14"] = {
 PROPS["C15"] = {
     "alternatives": [{
         "name": "ksf-selection-binding",
-        "clauses": [(O + "get_password_derived_key", "*"), (O + "ClientRegistration::finish", "ksf_err"), (O + "ClientLogin::finish", "ksf_err"), ("ksf::Identity::hash", "*")],
-         # the Argon2 adapter's exact salt / error kind is RFC conformance (C09), not this property: supporting here
-         "supporting": [(O + "ClientRegistration::finish", "rfc"), (O + "ClientLogin::finish", "rp"), ("ksf::Argon2::hash", "*")],
+        "clauses": [(O + "get_password_derived_key", "ksf_err"), (O + "ClientRegistration::finish", "ksf_err"), (O + "ClientLogin::finish", "ksf_err"), ("ksf::Identity::hash", "*")],
+         # the Argon2 adapter's exact salt / error kind is RFC conformance (C09), not this property: supporting here.  get_password_derived_key.rfc / ok also
+         # state HOW the password enters the OPRF (C02 / C14 / C09): supporting here, decided on the real code by generator c15 when they fail
+         "supporting": [(O + "get_password_derived_key", "*"), (O + "ClientRegistration::finish", "rfc"), (O + "ClientLogin::finish", "rp"), ("ksf::Argon2::hash", "*")],
          "theorems": ["thm_c15_default_equiv", "thm_c15_ksf_bound"],
     }],
     "witness": "c15",
@@ -245,7 +246,7 @@ PROPS["C16"] = {
 PROPS["C17"] = {
     "alternatives": [{
         "name": "functional-contracts",
-        "clauses": [(O + "blind", "*"), (O + "ServerLogin::start", "tape"), (O + "ServerSetup::new", "tape"), (O + "ServerSetup::new_with_key", "tape"), (E + "Envelope::seal", "tape"), (O + "ClientRegistration::start", "tape"), (O + "ClientRegistration::finish", "tape"), (M + "RegistrationUpload::dummy", "tape"), (O + "ServerRegistration::dummy", "tape"), (T + "generate_nonce", "*"), (T + "TripleDh::generate_ke1", "tape"), (T + "TripleDh::generate_ke2", "tape"), (K + "KeyPair::generate_random", "tape")],
+        "clauses": [(O + "blind", "tape"), (O + "blind", "fresh"), (O + "ServerLogin::start", "tape"), (O + "ServerSetup::new", "tape"), (O + "ServerSetup::new_with_key", "tape"), (E + "Envelope::seal", "tape"), (O + "ClientRegistration::start", "tape"), (O + "ClientRegistration::finish", "tape"), (M + "RegistrationUpload::dummy", "tape"), (O + "ServerRegistration::dummy", "tape"), (T + "generate_nonce", "*"), (T + "TripleDh::generate_ke1", "tape"), (T + "TripleDh::generate_ke2", "tape"), (K + "KeyPair::generate_random", "tape")],
          "supporting": ALL_BUT_EC_STRICT, "exclude": SOUND,
          "theorems": ["thm_c17_server_login_deterministic", "thm_c17_disjoint_segments"],
     }],
@@ -305,10 +306,12 @@ PROPS["C11"] = {
 PROPS["C12"] = {
     "alternatives": [{
         "name": "no-panic-obligations",
-        "clauses": [(ER + "InternalError::into_custom", "*"), (ER + "ProtocolError::into_custom", "*"), (O + "MaskedResponse::deserialize", "*"), (G + "i2osp_2", "*"), (O + "bytestrings_from_identifiers", "*"),
-                    (S + "Input::from", "*"), (S + "Input::from_owned", "*"), (S + "Input::from_label", "*"), (S + "Input::iter", "*"), (S + "Input::to_array_2", "*"), (S + "Input::to_array_3", "*"),
-                    (T + "hkdf_expand_label_extracted", "*"), (T + "TripleDh::generate_ke2", "ctx_err"), (T + "TripleDh::generate_ke3", "ctx_err"), (O + "get_password_derived_key", "len_err"),
-                    (K + "KeyPair::generate_random", "*")],
+        # refusal clauses (over-long inputs are refused, never truncated); every panic condition is a body obligation (`body_of`), including the
+        # panic-guarding preconditions of into_custom / MaskedResponse::deserialize / to_array_* / unmask_response at their call sites
+        "clauses": [(G + "i2osp_2", "conf"), (G + "i2osp_2", "errkind"), (O + "bytestrings_from_identifiers", "ok_iff"), (O + "bytestrings_from_identifiers", "errkind"),
+                    (S + "Input::from", "ok_iff"), (S + "Input::from", "err"), (S + "Input::from_owned", "ok_iff"), (S + "Input::from_label", "ok_iff"), (S + "Input::from_label", "err"),
+                    (T + "hkdf_expand_label_extracted", "ok_iff"), (T + "hkdf_expand_label_extracted", "errkind"), (T + "TripleDh::generate_ke2", "ctx_err"), (T + "TripleDh::generate_ke3", "ctx_err"),
+                    (O + "get_password_derived_key", "len_err")],
         "body_of": "*",
         "kani": {"quick": [("leaf", "i2osp_u2_exact"), ("leaf", "i2osp_u1_exact"), ("leaf", "input_from_refuses_long"), ("leaf", "check_slice_size_exact")],
                  "thorough": [("leaf", "input_from_iter_bounded"), ("leaf", "input_owned_iter_bounded"), ("leaf", "input_label_arrays_bounded"), ("leaf", "chain_iter_order_bounded"), ("api", "x25519_sk_decode_length"), ("api", "ristretto_decode_length")]},
